@@ -414,6 +414,14 @@ REF_FCN REF_STATUS ref_collapse_edge_geometry(REF_GRID ref_grid, REF_INT node0,
     return REF_SUCCESS;
   }
 
+  /* a node where two or more edge ids meet separates boundary patches */
+  RXS(ref_cell_id_list_around(ref_edg, node1, 2, &degree1, ids1),
+      REF_INCREASE_LIMIT, "count edge ids");
+  if (degree1 > 1) {
+    *allowed = REF_FALSE;
+    return REF_SUCCESS;
+  }
+
   /* ids1 is a list of degree1 face ids for node1 */
   RXS(ref_cell_id_list_around(ref_tri, node1, 3, &degree1, ids1),
       REF_INCREASE_LIMIT, "count faceids");
